@@ -55,6 +55,15 @@ fn ek<E: std::fmt::Debug>(e: &E) -> String {
     err_kind(e).split('/').next().unwrap_or("").to_string()
 }
 
+/// both entry points of the observer, alternating
+fn obs_process(eg: &mut EGroup, m: MlsMessage) -> Result<ExternalReceivedMessage, mls_rs::error::MlsError> {
+    if use_timed_entry_point() {
+        eg.process_incoming_message_with_time(m, mls_rs::time::MlsTime::now())
+    } else {
+        eg.process_incoming_message(m)
+    }
+}
+
 fn obs_view(eg: &EGroup) -> (Vec<u8>, Vec<(u32, Vec<u8>)>, Vec<u8>) {
     let ctx = eg.group_context().mls_encode_to_vec().unwrap_or_default();
     let roster = eg
@@ -140,7 +149,7 @@ impl C16 {
             let m = msg.clone();
             w.out.cov.eval(Some(fnv(format!("feed|{kind}|{}", o.jitter_class).as_bytes())));
             w.out.cov.bump(&format!("observer_fed:{kind}"));
-            match guarded(|| o.eg.process_incoming_message(m)) {
+            match guarded(|| obs_process(&mut o.eg, m)) {
                 Ok(Ok(_)) => {}
                 Ok(Err(e)) => w.violate(
                     format!("C16|observer_rejects_honest_{kind}|{}", ek(&e)),
@@ -168,7 +177,7 @@ impl C16 {
                 w.out.cov.eval(Some(fnv(format!("window|{}|{}|{expect_ok}", o.jitter_class, (cur - e).min(5)).as_bytes())));
                 w.out.cov.bump("window_checked");
                 let mut eg = o.eg.clone();
-                match guarded(|| eg.process_incoming_message(mm)) {
+                match guarded(|| obs_process(&mut eg, mm)) {
                     Ok(Ok(ExternalReceivedMessage::Ciphertext(_))) if expect_ok => {}
                     Ok(Err(_)) if !expect_ok => {}
                     Ok(Ok(_)) => w.violate(
@@ -194,7 +203,7 @@ impl C16 {
             w.out.cov.eval(Some(fnv(format!("neg|{class}|{}", o.jitter_class).as_bytes())));
             w.out.cov.bump(&format!("negative:{class}"));
             let r = guarded(|| match MlsMessage::from_bytes(bytes) {
-                Ok(m) => eg.process_incoming_message(m).map(|_| ()),
+                Ok(m) => obs_process(&mut eg, m).map(|_| ()),
                 Err(e) => Err(e),
             });
             match r {
@@ -296,7 +305,7 @@ impl Hooks for C16 {
                                     continue;
                                 }
                                 let mm = m.clone();
-                                match guarded(|| o.eg.process_incoming_message(mm)) {
+                                match guarded(|| obs_process(&mut o.eg, mm)) {
                                     Ok(Ok(_)) => {}
                                     Ok(Err(e)) => w.violate(format!("C16|observer_rejects_external_sender_proposal|{}", ek(&e)), format!("observer {j}: {e:?}")),
                                     Err(p) => w.violate("C16|panic|observer_external_proposal", p),
